@@ -14,5 +14,7 @@ ASSUME = ["coefficients compared at 1e-9 (grid) and 1e-9 absolute + 1e-6 relativ
 def run(tier):
     stages = [("MCProject", "MCProject_quick.cfg", "project")] if tier == "quick" else [
         ("MCProject", "MCProject_t1.cfg", "project"), ("MCProject", "MCProject_t2.cfg", "project")]
+    # inadmissible targets are also rejected when projecting during creation (Create.tla, build step)
+    stages.append(("MCCreate", "MCCreate_badproj.cfg", "create"))
     return standard("C03", tier, "model_checking", RULE, ASSUME, stages,
                     sabotage=[("MCProject", "MCProject_abWrongStep.cfg", ["ClosedForm", "TwoStepEqualsDirect"])])
